@@ -78,7 +78,11 @@ class Coupling(AbstractBijection):
 
     def transform(self, x, condition=None):
         x_cond, x_trans = x[: self.untransformed_dim], x[self.untransformed_dim :]
-        nn_input = x_cond if condition is None else jnp.hstack((x_cond, condition))
+        nn_input = (
+            x_cond
+            if self.cond_shape is None
+            else jnp.hstack((x_cond, condition))
+        )
         transformer_params = self.conditioner(nn_input)
         transformer = self._flat_params_to_transformer(transformer_params)
         y_trans = transformer.transform(x_trans)
@@ -86,7 +90,11 @@ class Coupling(AbstractBijection):
 
     def transform_and_log_det(self, x, condition=None):
         x_cond, x_trans = x[: self.untransformed_dim], x[self.untransformed_dim :]
-        nn_input = x_cond if condition is None else jnp.hstack((x_cond, condition))
+        nn_input = (
+            x_cond
+            if self.cond_shape is None
+            else jnp.hstack((x_cond, condition))
+        )
         transformer_params = self.conditioner(nn_input)
         transformer = self._flat_params_to_transformer(transformer_params)
         y_trans, log_det = transformer.transform_and_log_det(x_trans)
@@ -95,7 +103,11 @@ class Coupling(AbstractBijection):
 
     def inverse(self, y, condition=None):
         x_cond, y_trans = y[: self.untransformed_dim], y[self.untransformed_dim :]
-        nn_input = x_cond if condition is None else jnp.concatenate((x_cond, condition))
+        nn_input = (
+            x_cond
+            if self.cond_shape is None
+            else jnp.concatenate((x_cond, condition))
+        )
         transformer_params = self.conditioner(nn_input)
         transformer = self._flat_params_to_transformer(transformer_params)
         x_trans = transformer.inverse(y_trans)
@@ -103,7 +115,11 @@ class Coupling(AbstractBijection):
 
     def inverse_and_log_det(self, y, condition=None):
         x_cond, y_trans = y[: self.untransformed_dim], y[self.untransformed_dim :]
-        nn_input = x_cond if condition is None else jnp.concatenate((x_cond, condition))
+        nn_input = (
+            x_cond
+            if self.cond_shape is None
+            else jnp.concatenate((x_cond, condition))
+        )
         transformer_params = self.conditioner(nn_input)
         transformer = self._flat_params_to_transformer(transformer_params)
         x_trans, log_det = transformer.inverse_and_log_det(y_trans)
